@@ -10,6 +10,7 @@ import Mathlib.Algebra.Field.Basic
 import Mathlib.Tactic.Ring
 import Mathlib.Tactic.FieldSimp
 import Mathlib.Tactic.LinearCombination
+import Mathlib.Algebra.BigOperators.Intervals
 
 namespace OdlModel.Adjoint
 open Finset
@@ -380,5 +381,166 @@ theorem proj_dot' (P Q : Space K) (idx : Nat → Nat)
     intro j _; by_cases e : idx k = j <;> simp [e]
   rw [sum_congr rfl this, sum_ite_eq (range P.m) (idx k)]
   simp only [mem_range, h1, if_true, h2, h3]
+
+end OdlModel.Adjoint
+
+/-! ### n-d index arithmetic (round 4): ravel_multi_index, Fortran-order permutation -/
+
+namespace OdlModel.Adjoint
+open Finset
+
+theorem shProd_pos_of_lt {sh : List Nat} {i : Nat} (h : i < shProd sh) : 0 < shProd sh := by omega
+
+theorem ravelC_lt : ∀ (sh mi : List Nat), List.Forall₂ (· < ·) mi sh → ravelC sh mi < shProd sh
+  | [], [], _ => by simp [ravelC, shProd]
+  | n :: sh, i :: mi, h => by
+    cases h with
+    | cons h1 h2 =>
+      have ih := ravelC_lt sh mi h2
+      simp only [ravelC, shProd]
+      calc i * shProd sh + ravelC sh mi < i * shProd sh + shProd sh := by omega
+        _ = (i + 1) * shProd sh := by ring
+        _ ≤ n * shProd sh := Nat.mul_le_mul_right _ h1
+  | [], _ :: _, h => by cases h
+  | _ :: _, [], h => by cases h
+
+theorem cOfF_lt : ∀ (sh : List Nat) (i : Nat), i < shProd sh → cOfF sh i < shProd sh
+  | [], i, h => by simp [cOfF, shProd]
+  | n :: sh, i, h => by
+    simp only [shProd] at h
+    have hn : 0 < n := Nat.pos_of_ne_zero (by rintro rfl; simp at h)
+    have h1 : i / n < shProd sh := Nat.div_lt_of_lt_mul h
+    have ih := cOfF_lt sh (i / n) h1
+    have h2 : i % n < n := Nat.mod_lt _ hn
+    simp only [cOfF, shProd]
+    calc i % n * shProd sh + cOfF sh (i / n) < i % n * shProd sh + shProd sh := by omega
+      _ = (i % n + 1) * shProd sh := by ring
+      _ ≤ n * shProd sh := Nat.mul_le_mul_right _ h2
+
+theorem fOfC_lt : ∀ (sh : List Nat) (k : Nat), k < shProd sh → fOfC sh k < shProd sh
+  | [], k, h => by simp [fOfC, shProd]
+  | n :: sh, k, h => by
+    simp only [shProd] at h
+    have hP : 0 < shProd sh := Nat.pos_of_ne_zero (by intro e; rw [e] at h; simp at h)
+    have h1 : k / shProd sh < n := Nat.div_lt_of_lt_mul (by rwa [Nat.mul_comm])
+    have ih := fOfC_lt sh (k % shProd sh) (Nat.mod_lt _ hP)
+    simp only [fOfC, shProd]
+    calc k / shProd sh + n * fOfC sh (k % shProd sh)
+        < n + n * fOfC sh (k % shProd sh) := by omega
+      _ = n * (fOfC sh (k % shProd sh) + 1) := by ring
+      _ ≤ n * shProd sh := Nat.mul_le_mul_left _ ih
+
+theorem fOfC_cOfF : ∀ (sh : List Nat) (i : Nat), i < shProd sh → fOfC sh (cOfF sh i) = i
+  | [], i, h => by simp [shProd] at h; simp [fOfC, h]
+  | n :: sh, i, h => by
+    simp only [shProd] at h
+    have hn : 0 < n := Nat.pos_of_ne_zero (by rintro rfl; simp at h)
+    have h1 : i / n < shProd sh := Nat.div_lt_of_lt_mul h
+    have hc := cOfF_lt sh (i / n) h1
+    have ih := fOfC_cOfF sh (i / n) h1
+    simp only [cOfF, fOfC]
+    have e1 : (i % n * shProd sh + cOfF sh (i / n)) / shProd sh = i % n := by
+      rw [Nat.mul_comm, Nat.mul_add_div (by omega), Nat.div_eq_of_lt hc]; simp
+    have e2 : (i % n * shProd sh + cOfF sh (i / n)) % shProd sh = cOfF sh (i / n) := by
+      rw [Nat.mul_comm, Nat.mul_add_mod, Nat.mod_eq_of_lt hc]
+    rw [e1, e2, ih]
+    exact Nat.mod_add_div i n
+
+theorem cOfF_fOfC : ∀ (sh : List Nat) (k : Nat), k < shProd sh → cOfF sh (fOfC sh k) = k
+  | [], k, h => by simp [shProd] at h; simp [cOfF, h]
+  | n :: sh, k, h => by
+    simp only [shProd] at h
+    have hP : 0 < shProd sh := Nat.pos_of_ne_zero (by intro e; rw [e] at h; simp at h)
+    have hn : 0 < n := Nat.pos_of_ne_zero (by rintro rfl; simp at h)
+    have h1 : k / shProd sh < n := Nat.div_lt_of_lt_mul (by rwa [Nat.mul_comm])
+    have ih := cOfF_fOfC sh (k % shProd sh) (Nat.mod_lt _ hP)
+    simp only [cOfF, fOfC]
+    have e1 : (k / shProd sh + n * fOfC sh (k % shProd sh)) % n = k / shProd sh := by
+      rw [Nat.add_mul_mod_self_left, Nat.mod_eq_of_lt h1]
+    have e2 : (k / shProd sh + n * fOfC sh (k % shProd sh)) / n = fOfC sh (k % shProd sh) := by
+      rw [Nat.add_mul_div_left _ _ hn, Nat.div_eq_of_lt h1]; simp
+    rw [e1, e2, ih]
+    exact Nat.div_add_mod' k (shProd sh)
+
+variable {K : Type} [Field K]
+
+/-- reindexing a sum over the flat C-order view by Fortran order -/
+theorem sum_cOfF (sh : List Nat) (g : Nat → K) :
+    ∑ i ∈ range (shProd sh), g (cOfF sh i) = ∑ k ∈ range (shProd sh), g k := by
+  refine sum_nbij' (cOfF sh) (fOfC sh) ?_ ?_ ?_ ?_ ?_
+  · intro i hi; exact mem_range.mpr (cOfF_lt sh i (mem_range.mp hi))
+  · intro k hk; exact mem_range.mpr (fOfC_lt sh k (mem_range.mp hk))
+  · intro i hi; exact fOfC_cOfF sh i (mem_range.mp hi)
+  · intro k hk; exact cOfF_fOfC sh k (mem_range.mp hk)
+  · intro i _; rfl
+
+theorem sum_range_mul (m n : Nat) (f : Nat → K) :
+    ∑ o ∈ range (m * n), f o = ∑ a ∈ range m, ∑ b ∈ range n, f (a * n + b) := by
+  induction m with
+  | zero => simp
+  | succ m ih => rw [Nat.succ_mul, sum_range_add, ih, sum_range_succ]
+
+end OdlModel.Adjoint
+
+/-! ### MatrixOperator along one axis of an n-d tensor (round 4) -/
+
+namespace OdlModel.Adjoint
+open Finset
+
+theorem idx3 (u i v m q : Nat) (hi : i < m) (hv : v < q) :
+    (u * (m * q) + (i * q + v)) / (m * q) = u ∧ ((u * (m * q) + (i * q + v)) / q) % m = i ∧
+      (u * (m * q) + (i * q + v)) % q = v := by
+  have ht : i * q + v < m * q := by
+    calc i * q + v < i * q + q := by omega
+      _ = (i + 1) * q := by ring
+      _ ≤ m * q := Nat.mul_le_mul_right _ hi
+  have e : u * (m * q) + (i * q + v) = v + (u * m + i) * q := by ring
+  refine ⟨?_, ?_, ?_⟩
+  · rw [Nat.add_comm, Nat.add_mul_div_right _ _ (by omega), Nat.div_eq_of_lt ht]; simp
+  · rw [e, Nat.add_mul_div_right _ _ (by omega), Nat.div_eq_of_lt hv, Nat.zero_add,
+      Nat.add_comm, Nat.add_mul_mod_self_right, Nat.mod_eq_of_lt hi]
+  · rw [e, Nat.add_mul_mod_self_right, Nat.mod_eq_of_lt hv]
+
+variable {K : Type} [Field K]
+
+/-- the action of MatrixOperator(axis) at the output position `(u, i, v)` -/
+theorem matAxisRun_at [DecidableEq K] (n m q : Nat) (M : Nat → Nat → K) (x : El K) (j u i v : Nat)
+    (hi : i < m) (hv : v < q) :
+    matAxisRun n m q M x j (u * (m * q) + (i * q + v)) =
+      ∑ k ∈ range n, M i k * x 0 (u * (n * q) + (k * q + v)) := by
+  obtain ⟨e1, e2, e3⟩ := idx3 u i v m q hi hv
+  simp only [matAxisRun, sumTo_eq, e1, e2, e3]
+  refine sum_congr rfl fun k _ => ?_
+  congr 2; ring
+
+/-- transposition along one axis of a `(p, ·, q)` tensor: the unweighted pairing identity -/
+theorem matAxis_dot [DecidableEq K] (cj : K →+* K) (p n m q : Nat) (M N : Nat → Nat → K)
+    (c c' : K) (hN : ∀ k i, c' * cj (N k i) = c * M i k) (x y : El K) :
+    ∑ o ∈ range (p * (m * q)), c * matAxisRun n m q M x 0 o * cj (y 0 o) =
+      ∑ o ∈ range (p * (n * q)), c' * x 0 o * cj (matAxisRun m n q N y 0 o) := by
+  rw [sum_range_mul, sum_range_mul]
+  refine sum_congr rfl fun u _ => ?_
+  rw [sum_range_mul, sum_range_mul]
+  have L : ∀ i ∈ range m, ∀ v ∈ range q,
+      c * matAxisRun n m q M x 0 (u * (m * q) + (i * q + v)) * cj (y 0 (u * (m * q) + (i * q + v))) =
+      ∑ k ∈ range n, c * (M i k * x 0 (u * (n * q) + (k * q + v))) *
+        cj (y 0 (u * (m * q) + (i * q + v))) := by
+    intro i hi v hv
+    rw [matAxisRun_at n m q M x 0 u i v (mem_range.mp hi) (mem_range.mp hv), mul_sum, sum_mul]
+  have Rr : ∀ k ∈ range n, ∀ v ∈ range q,
+      c' * x 0 (u * (n * q) + (k * q + v)) * cj (matAxisRun m n q N y 0 (u * (n * q) + (k * q + v))) =
+      ∑ i ∈ range m, c * (M i k * x 0 (u * (n * q) + (k * q + v))) *
+        cj (y 0 (u * (m * q) + (i * q + v))) := by
+    intro k hk v hv
+    rw [matAxisRun_at m n q N y 0 u k v (mem_range.mp hk) (mem_range.mp hv), map_sum, mul_sum]
+    refine sum_congr rfl fun i _ => ?_
+    rw [map_mul]
+    linear_combination (x 0 (u * (n * q) + (k * q + v)) * cj (y 0 (u * (m * q) + (i * q + v)))) * hN k i
+  rw [sum_congr rfl fun i hi => sum_congr rfl fun v hv => L i hi v hv,
+    sum_congr rfl fun k hk => sum_congr rfl fun v hv => Rr k hk v hv]
+  calc ∑ i ∈ range m, ∑ v ∈ range q, ∑ k ∈ range n, _
+      = ∑ i ∈ range m, ∑ k ∈ range n, ∑ v ∈ range q, _ := sum_congr rfl fun i _ => sum_comm
+    _ = ∑ k ∈ range n, ∑ i ∈ range m, ∑ v ∈ range q, _ := sum_comm
+    _ = ∑ k ∈ range n, ∑ v ∈ range q, ∑ i ∈ range m, _ := sum_congr rfl fun k _ => sum_comm
 
 end OdlModel.Adjoint
